@@ -1816,7 +1816,7 @@ def gen_corpus_ext(rng, n_sample):
     return cases
 
 
-def _big_its(rng, n):
+def _big_its(rng, n, many=False):
     """25..60 atoms, several changed bonds spread over the graph, at least two unchanged H-H bonds, a few chords"""
     g = _rand_its(rng, n, "its-rand")
     for e in g["edges"]:
@@ -1828,7 +1828,7 @@ def _big_its(rng, n):
             a["element"] = "H"
             a["typesGH"] = [["H"] + list(a["typesGH"][0][1:]), ["H"] + list(a["typesGH"][1][1:])]
         e[2] = its_edge(1, 1)
-    for e in rng.sample(g["edges"], min(rng.randint(4, 16), len(g["edges"]))):
+    for e in rng.sample(g["edges"], min((len(g["edges"]) * 2) // 5 if many else rng.randint(4, 16), len(g["edges"]))):
         if not (attrs[e[0]]["element"] == "H" and attrs[e[1]]["element"] == "H"):
             e[2] = its_edge(*rng.choice([(0, 1), (1, 0), (1, 2), (2, 1)]))
     return g
@@ -1978,6 +1978,12 @@ def gen_huge(rng, tier):
         cases.append(dict(kind="help-huge", I=_big_its(rng, rng.randint(100, 150)), helpers=HELPER_RADII))
     g = X.canon(_big_its(rng, 110))
     cases.append(dict(kind="hist-huge", I=g, hist=HS.gen_history(rng, g, "b")))
+    # round 5: beyond 256 atoms (and, thorough, beyond 1024)
+    cases.append(dict(kind="its-manychg", I=_big_its(rng, 160, many=True)))           # a centre of ~60 changed bonds / ~100 atoms
+    cases.append(dict(kind="help-manychg", I=_big_its(rng, 160, many=True), helpers=[0, 1, 3]))
+    for n in ((320,) if tier == "quick" else (320, 1100)):
+        cases.append(dict(kind="its-giant", I=_big_its(rng, n)))
+        cases.append(dict(kind="help-giant", I=_big_its(rng, n), helpers=[0, 1, 12]))
     return cases
 
 
